@@ -20,9 +20,9 @@
 From Coq Require Import List Arith Bool.
 Import ListNotations.
 
-Definition client := nat.
-Definition msg := nat.
-Definition tid := nat.
+Notation client := nat (only parsing).
+Notation msg := nat (only parsing).
+Notation tid := nat (only parsing).
 
 (* ---------------------------------------------------------------- insertion-ordered tables keyed by numbers *)
 Section Table.
@@ -209,9 +209,10 @@ Definition notify (s : st) (c : client) : st :=
   | _ => s
   end.
 
-(* ThreadFinishedProcessingClientMessages(threadID, client) *)
-Definition finished (s : st) (t : tid) (c : client) : st * list event :=
-  if s_shut s then (s, []) else
+(* ThreadFinishedProcessingClientMessages(threadID, client), in three parts: (1) reset the being-handled flag, promote
+   the deferred Messages to pending, give the thread back to _availableThreads; (2) DispatchPendingMessagesUnsafe();
+   (3) wake the client's UnregisterClient() if nothing of it is outstanding any more *)
+Definition fin_core (s : st) (t : tid) (c : client) : st :=
   let s1 :=
     match tget c (s_reg s) with
     | Some h =>
@@ -225,13 +226,17 @@ Definition finished (s : st) (t : tid) (c : client) : st * list event :=
       end
     | None => s
     end in
-  let s2 := if lmem t (s_active s1)
-            then set_avail (set_active s1 (lrem t (s_active s1))) (s_avail s1 ++ [t])
-            else s1 in
-  let s3 := dispatch s2 in
-  if outstanding s3 c then (s3, [])
-  else if lmem c (s_wait s3) then (set_wait (notify s3 c) (lrem c (s_wait s3)), [ENotify c])
-  else (s3, []).
+  if lmem t (s_active s1)
+  then set_avail (set_active s1 (lrem t (s_active s1))) (s_avail s1 ++ [t])
+  else s1.
+
+Definition fin_notify (s : st) (c : client) : st * list event :=
+  if outstanding s c then (s, [])
+  else if lmem c (s_wait s) then (set_wait (notify s c) (lrem c (s_wait s)), [ENotify c])
+  else (s, []).
+
+Definition finished (s : st) (t : tid) (c : client) : st * list event :=
+  if s_shut s then (s, []) else fin_notify (dispatch (fin_core s t c)) c.
 
 (* first critical section of UnregisterClient() *)
 Definition unreg_begin (s : st) (c : client) : st * list event :=
